@@ -44,6 +44,7 @@ def setup(rep, tier):
     rep.minimum('R05.7', 2)
     rep.minimum('R05.8', 1)
     rep.minimum('R05.9', 1)
+    rep.minimum('R05.10', 5)
 
 
 def local_key(f, name):
@@ -829,7 +830,90 @@ def r05_9(rep, prog):
     return n
 
 
+# ------------------------------------------------------------------ R05.10
+SENTINEL_FIELDS = {('OpusMSEncoder', 'bitrate_bps'): (-1000, -1), ('OpusEncoder', 'user_bitrate_bps'): (-1000, -1)}
+
+
+def _only_steers_bandwidth(f, loc):
+    """True when every use of the local `loc` is a self-update or a branch condition whose two targets hold nothing but
+    opus_encoder_ctl(enc, OPUS_SET_BANDWIDTH(..)) requests or further such branches: the value chooses an audio bandwidth and
+    reaches no rate, size or buffer computation, so the property (sizes and rates) does not depend on it."""
+    k = sx.key(loc)
+    cond_blocks = set()
+    for b, blk in f.blocks.items():
+        for s_ in blk['stmts']:
+            if (s_[0] == 'assign' and sx.key(sx.strip(s_[1])) == k) or (s_[0] == 'cassign' and sx.key(sx.strip(s_[2])) == k) or s_[0] == 'decls':
+                continue                                  # definition or self-update
+            if any(sx.key(x) == k for x in sx.walk(s_)):
+                return False
+        t = blk.get('term')
+        if t and 'cond' in t and any(sx.key(x) == k for x in sx.walk(t['cond'])):
+            cond_blocks.add(b)
+        elif t and any(sx.key(x) == k for x in sx.walk(t.get('value') or ())):
+            return False
+    if not cond_blocks:
+        return False
+    for b in cond_blocks:
+        for sb in f.blocks[b].get('succ', []):
+            if sb in cond_blocks:
+                continue
+            for s_ in f.blocks[sb]['stmts']:
+                c = sx.strip(s_[1] if s_[0] == 'expr' else s_)
+                if not (sx.kind(c) == 'call' and sx.callee_name(c) == 'opus_encoder_ctl' and len(c[2]) > 1 and sx.is_int(sx.strip(c[2][1]), 4008)):
+                    return False
+    return True
+
+
+def r05_10(rep, prog):
+    """OPUS_AUTO (-1000) and OPUS_BITRATE_MAX (-1) are sentinels, not rates: every place where the bitrate setting enters
+    arithmetic, an ordered comparison, or is copied into a local that does, lies behind tests that exclude both values
+    (the sentinel is resolved first).  A sentinel compared with `10000 * channels` silently selects the lowest quality."""
+    n = 0
+    for f in prog.functions_all:
+        if not f.file.startswith('src/'):
+            continue
+        cf = None
+        for b, blk in f.blocks.items():
+            items = list(enumerate(blk['stmts']))
+            t = blk.get('term')
+            if t and 'cond' in t:
+                items.append((len(blk['stmts']), t['cond']))
+            for i, s_ in items:
+                uses = []
+                for x in sx.walk(s_):
+                    if sx.kind(x) == 'bin' and x[1] in ('+', '-', '*', '/', '<', '>', '<=', '>=', '>>', '<<'):
+                        for side in (x[2], x[3]):
+                            y = sx.strip(side)
+                            if sx.kind(y) == 'field' and (y[2], y[3]) in SENTINEL_FIELDS:
+                                uses.append((y, x))
+                if s_[0] == 'assign' and sx.kind(sx.strip(s_[2])) == 'field' and (sx.strip(s_[2])[2], sx.strip(s_[2])[3]) in SENTINEL_FIELDS and sx.kind(sx.strip(s_[1])) == 'local':
+                    uses.append((sx.strip(s_[2]), s_))
+                for y, ctx in uses:
+                    if cf is None:
+                        cf = cfgm.CFG(f)
+                    if ctx[0] == 'assign' and _only_steers_bandwidth(f, sx.strip(ctx[1])):
+                        rep.note('R05.10 outside the property: %s:%s copies %s.%s into `%s`, which only selects OPUS_SET_BANDWIDTH requests (no rate or size depends on it); '
+                                 'the sentinel is not excluded there - see DESIGN 10.3b' % (f.file, sx.line(ctx), y[2], y[3], sx.show(sx.strip(ctx[1]))))
+                        continue
+                    facts = T.stable_facts(cf, b, i)
+                    k = sx.key(y)
+                    need = SENTINEL_FIELDS[(y[2], y[3])]
+                    excl = [v for v in need if any((a[0] == '!=' and a[1] == k and a[2] == ('int', v)) or
+                                                   (a[0] in ('<', '<=') and isinstance(a[1], tuple) and a[1][0] == 'int' and a[2] == k and a[1][1] >= (v if a[0] == '<' else v + 1)) for a in facts)]
+                    n += 1
+                    rep.functions.add(f.name)
+                    inst = '%s:%s uses %s.%s as a number only after the sentinels are excluded (`%s`)' % (prog.config, f.name, y[2], y[3], sx.show(ctx)[:50])
+                    where = '%s:%s' % (f.file, sx.line(ctx) or sx.line(s_))
+                    if len(excl) == len(need):
+                        rep.holds('R05.10', inst, where, 'behind tests != %s' % list(need))
+                    else:
+                        rep.violated('R05.10', inst, where, 'not behind tests excluding %s: with the default (OPUS_AUTO) or OPUS_BITRATE_MAX the sentinel value itself is used as a rate' % [v for v in need if v not in excl],
+                                     key='%s:%s:sentinel:%s' % (f.name, y[3], sx.line(ctx) or sx.line(s_)))
+    return n
+
+
 def check(rep, prog, tier):
+    r05_10(rep, prog)
     r05_9(rep, prog)
     r05_8(rep, prog)
     r05_7(rep, prog)
